@@ -34,6 +34,7 @@ def wrap(g):
 cands=[]
 if goal[0]=='forall':
     binders,body=goal[1],goal[2]
+    if body[0]=="!": body=body[1]
     if body[0]=='=>':
         for c in conj(body[2]): cands.append(['forall',binders,['=>',body[1],c]])
     else:
